@@ -7,6 +7,7 @@ import (
 	"strings"
 	"sync"
 	"time"
+	"unicode"
 
 	"github.com/gcash/bchd/chaincfg"
 	"github.com/gcash/bchd/chaincfg/chainhash"
@@ -156,4 +157,30 @@ func fixedHeader(version int32, prev, merkle *chainhash.Hash, bits, nonce uint32
 	h := wire.NewBlockHeader(version, prev, merkle, bits, nonce)
 	h.Timestamp = time.Unix(1600000000, 0)
 	return h
+}
+
+// asciiFoldRunes: every rune >= 0x80 whose simple upper/lower/title case mapping is an ASCII
+// character (U+212A KELVIN SIGN -> k, U+017F LONG S -> S, U+0130/U+0131 dotted/dotless i, ...), taken
+// from Go's own tables.  A decoder that case-folds with the Unicode-aware helpers turns such a rune
+// into a valid ASCII symbol.
+var asciiFoldRunes = func() []rune {
+	var out []rune
+	for r := rune(0x80); r < 0x30000; r++ {
+		if unicode.ToLower(r) < 0x80 || unicode.ToUpper(r) < 0x80 || unicode.ToTitle(r) < 0x80 {
+			out = append(out, r)
+		}
+	}
+	return out
+}()
+
+// runeSubstitutions returns s with the character at each byte position replaced by each rune of
+// asciiFoldRunes (UTF-8 encoded).
+func runeSubstitutions(s string) []string {
+	var out []string
+	for pos := 0; pos < len(s); pos++ {
+		for _, r := range asciiFoldRunes {
+			out = append(out, s[:pos]+string(r)+s[pos+1:])
+		}
+	}
+	return out
 }
